@@ -193,6 +193,7 @@ def aeval (c : Consts) : MExpr → Option Nat
   | .add a b => do let x ← aeval c a; let y ← aeval c b; pure ((x + y) % 4294967296)
   | .sub a b => do let x ← aeval c a; let y ← aeval c b; pure ((x + 4294967296 - y % 4294967296) % 4294967296)
   | .mul a b => do let x ← aeval c a; let y ← aeval c b; pure ((x * y) % 4294967296)
+  | .wmul a b => do let x ← aeval c a; let y ← aeval c b; pure (x * y)
   | .eq a b => do let x ← aeval c a; let y ← aeval c b; pure (b2n (x == y))
   | .ne a b => do let x ← aeval c a; let y ← aeval c b; pure (b2n (x != y))
   | .lt a b => do let x ← aeval c a; let y ← aeval c b; pure (b2n (decide (x < y)))
@@ -227,6 +228,42 @@ def chk (prog : List MStep) : Nat → Nat → Phase → Consts → Bool
     | some .lock => ph == .pre && chk prog fuel (pc + 1) .held c
     | some .unlock => ph == .held && chk prog fuel (pc + 1) .post c
     | _ => false
+
+/-- Path exploration for a SHARED memory with the same constant propagation as `chk`, tracking only the lock phase:
+    accepts iff no path reaches a step for which `bad phase step` holds (and every path ends in `ret`/`abort`). -/
+def chkP (bad : Phase → MStep → Bool) (prog : List MStep) : Nat → Nat → Phase → Consts → Bool
+  | 0, _, _, _ => false
+  | fuel + 1, pc, ph, c =>
+    match prog[pc]? with
+    | none => false
+    | some st =>
+      !bad ph st &&
+      match st with
+      | .set r e => chkP bad prog fuel (pc + 1) ph (c.set r (aeval c e))
+      | .read r f => chkP bad prog fuel (pc + 1) ph (c.set r (if f = .shared then some 1 else none))
+      | .brUnless e k =>
+        match aeval c e with
+        | some v => if v ≠ 0 then chkP bad prog fuel (pc + 1) ph c else chkP bad prog fuel (pc + 1 + k) ph c
+        | none => chkP bad prog fuel (pc + 1) ph c && chkP bad prog fuel (pc + 1 + k) ph c
+      | .ret _ => true
+      | .abort => true
+      | .lock => chkP bad prog fuel (pc + 1) .held c
+      | .unlock => chkP bad prog fuel (pc + 1) .post c
+      | .realloc r _ _ => chkP bad prog fuel (pc + 1) ph (c.set r none)
+      | .write _ _ => chkP bad prog fuel (pc + 1) ph c
+      | .memset _ _ _ _ => chkP bad prog fuel (pc + 1) ph c
+
+/-- on no path of a shared memory is `memory->data` stored (or the block reallocated): loads and stores of other
+    threads read `data` WITHOUT the lock, which is race-free only because nobody ever writes it after allocation -/
+def SharedNeverWritesData (prog : List MStep) : Bool :=
+  chkP (fun _ st => match st with | .write .data _ => true | .realloc _ _ _ => true | _ => false)
+    prog (prog.length + 1) 0 .pre []
+
+/-- on no path of a shared memory does a `memset` of memory contents run outside the critical section (in
+    particular not AFTER the unlock that publishes the new size: a store of another thread into a page it can
+    already see would be erased) -/
+def ZeroFillInsideCS (prog : List MStep) : Bool :=
+  chkP (fun ph st => match st with | .memset _ _ _ _ => ph != .held | _ => false) prog (prog.length + 1) 0 .pre []
 
 /-- the discipline under which concurrent grows are atomic -/
 def ReadsUnderLock (prog : List MStep) : Bool := chk prog (prog.length + 1) 0 .pre []
